@@ -70,6 +70,30 @@ class Cov(np.ndarray):
         self._data = obj._data.copy()
 
     @property
+    def base(self):
+        """Plain array sharing the memory of this object (see StateVector.base)"""
+        base = super().base
+        return base if base is not None else self.view(np.ndarray)
+
+    def __reduce__(self):
+        """For pickling: the frame, the reference state and its frame go with the values"""
+        reconstruct, clsinfo, state = super().__reduce__()
+
+        new_state = {
+            "basestate": state,
+            "data": self._data,
+            "orb_frame": self._orb_frame,
+        }
+
+        return reconstruct, clsinfo, new_state
+
+    def __setstate__(self, state):
+        """For pickling"""
+        super().__setstate__(state["basestate"])
+        self._data = state["data"]
+        self._orb_frame = state["orb_frame"]
+
+    @property
     def frame(self):
         """Frame of the covariance
 
